@@ -88,17 +88,18 @@ impl Story {
                     .set_diverted_pointer(current_divert.get_target_pointer());
             }
 
+            if self.get_state().diverted_pointer.is_null() && !current_divert.is_external {
+                return Err(StoryError::InvalidStoryState(format!(
+                    "Divert resolution failed: {current_divert}"
+                )));
+            }
+
             if current_divert.pushes_to_stack {
                 self.get_state().get_callstack().borrow_mut().push(
                     current_divert.stack_push_type,
                     0,
                     self.get_state().get_output_stream().len() as i32,
                 );
-            }
-
-            if self.get_state().diverted_pointer.is_null() && !current_divert.is_external {
-                //     error(format!("Divert resolution failed: {:?}",
-                // current_divert));
             }
 
             return Ok(true);
